@@ -33,7 +33,7 @@ PROPS = {
         "level": "proof",
         "verus": [("rowfrag", [None])],
         "functions": ["is_ambiguous", "filter.keep_noconst", "filter.keep_noambig", "filter.collect_types", "filter.weight_step", "filter.mask_cell",
-                      "update_counts.count_pred"],
+                      "update_counts.count_pred", "new.count_pred", "new.zero_to_gap"],
         "kani": [("tables", ["oracle_bijective", "is_ambiguous_classification"]), ("wrappers", None), ("rowfragk", ["count_pred_all_bytes"])],
         "bounded_quick": [{"group": "rowfragk", "name": "bounded_keep_noconst_len4", "bound": "rows of length <= 4 over 8 representative symbols"},
                           {"group": "rowfragk", "name": "bounded_keep_noambig_len4", "bound": "rows of length <= 4 over 8 representative symbols"},
@@ -66,14 +66,17 @@ PROPS = {
         "verus": [("idxcheck", [None])],
         "functions": ["IdxCheck::new", "IdxCheck::iter", "Iterator::next"],
         "kani": [("u8base", None)],
-        "bounded_quick": [{"group": "idxk", "name": "bounded_idxcheck_4x3", "bound": "1..=4 contigs of length 1..=3"}],
+        "bounded_quick": [{"group": "idxk", "name": "bounded_idxcheck_3contigs", "bound": "3 contigs of length 1..=2", "timeout": 900},
+                          {"group": "idxk", "name": "bounded_idxcheck_1contig", "bound": "1 contig of length 1..=3", "timeout": 600}],
         "bounded": [],
     },
     "C14": {
         "level": "other",
         "explanation": "BOUNDED check only (never counted as proved): Kani on the real MergeSkaArray::variant_dist with two symbolic columns of length 3 over {A,C,G,T,-} and a symbolic constant in 0..3, exact f64 comparison, against 'SNP count over shared k-mers / one-sided over union'; plus the complete enumeration of base_to_prob weights (C15 harness). distance() (rayon) and the --min-freq pre-filter bookkeeping in generic_modes::distance are outside the decided kernel.",
-        "verus": [],
-        "functions": [],
+        # the only Verus part: which cells MergeSkaArray::new counts as present (the counts the --min-freq filter of
+        # `ska distance` compares with its threshold)
+        "verus": [("rowfrag", [None])],
+        "functions": ["new.count_pred", "new.zero_to_gap"],
         "kani": [("tables", ["oracle_bijective", "base_to_prob_weights"])],
         "bounded": [{"group": "ndarr", "name": "bounded_variant_dist_len3", "bound": "columns of length 3 over {A,C,G,T,-}, constant in {0,1,2,3}",
                      "args": ["-Z", "unstable-options", "--cbmc-args", "--unwindset", "memcmp.0:18"], "timeout": 1500}],
